@@ -75,28 +75,6 @@ theorem isEmpty_eq {a : Rx} (h : a.isEmpty = true) : a = .empty := by
 theorem isEps_eq {a : Rx} (h : a.isEps = true) : a = .eps := by
   cases a <;> simp_all [isEps]
 
-theorem L_mkCat (a b : Rx) (w : List Letter) : L (mkCat a b) w ↔ L (.cat a b) w := by
-  unfold mkCat
-  split
-  · next h =>
-    simp only [Bool.or_eq_true] at h
-    rcases h with h | h
-    · rw [isEmpty_eq h]; simp [L]
-    · rw [isEmpty_eq h]; simp [L]
-  · split
-    · next h =>
-      rw [isEps_eq h]; simp only [L]
-      constructor
-      · intro h; exact ⟨[], w, rfl, rfl, h⟩
-      · rintro ⟨u, v, rfl, rfl, h⟩; simpa using h
-    · split
-      · next h =>
-        rw [isEps_eq h]; simp only [L]
-        constructor
-        · intro h; exact ⟨w, [], by simp, h, rfl⟩
-        · rintro ⟨u, v, rfl, h, rfl⟩; simpa using h
-      · rfl
-
 theorem L_altInsert (x r : Rx) (w : List Letter) : L (altInsert x r) w ↔ L x w ∨ L r w := by
   induction r with
   | alt y z _ ihz =>
@@ -172,15 +150,168 @@ theorem L_mkAlt (a b : Rx) (w : List Letter) : L (mkAlt a b) w ↔ L a w ∨ L b
   | star _ _ => simp only [mkAlt, L_altInsert]
   | compl _ _ => simp only [mkAlt, L_altInsert]
 
-theorem L_mkAnd (a b : Rx) (w : List Letter) : L (mkAnd a b) w ↔ L (.and a b) w := by
-  unfold mkAnd
+theorem L_cat_assoc (a b c : Rx) (w : List Letter) :
+    L (.cat (.cat a b) c) w ↔ L (.cat a (.cat b c)) w := by
+  simp only [L]
+  constructor
+  · rintro ⟨u, v, rfl, ⟨u1, u2, rfl, h1, h2⟩, h3⟩
+    exact ⟨u1, u2 ++ v, by simp, h1, u2, v, rfl, h2, h3⟩
+  · rintro ⟨u, v, rfl, h1, v1, v2, rfl, h2, h3⟩
+    exact ⟨u ++ v1, v2, by simp, ⟨u, v1, rfl, h1, h2⟩, h3⟩
+
+theorem L_cat_congr_right (a b b' : Rx) (h : ∀ w, L b w ↔ L b' w) (w : List Letter) :
+    L (.cat a b) w ↔ L (.cat a b') w := by
+  simp only [L, h]
+
+private theorem L_mkCat_base (a b : Rx) (w : List Letter) :
+    L (if b.isEmpty then .empty else if b.isEps then a else .cat a b) w ↔ L (.cat a b) w := by
   split
-  · next h =>
-    simp only [Bool.or_eq_true] at h
-    rcases h with h | h
-    · rw [isEmpty_eq h]; simp [L]
-    · rw [isEmpty_eq h]; simp [L]
-  · rfl
+  · next h => rw [isEmpty_eq h]; simp [L]
+  · split
+    · next h =>
+      rw [isEps_eq h]; simp only [L]
+      constructor
+      · intro h; exact ⟨w, [], by simp, h, rfl⟩
+      · rintro ⟨u, v, rfl, h, rfl⟩; simpa using h
+    · rfl
+
+theorem L_mkCat (a : Rx) : ∀ (b : Rx) (w : List Letter), L (mkCat a b) w ↔ L (.cat a b) w := by
+  induction a with
+  | empty => intro b w; simp [mkCat, L]
+  | eps =>
+    intro b w
+    simp only [mkCat, L]
+    constructor
+    · intro h; exact ⟨[], w, rfl, rfl, h⟩
+    · rintro ⟨u, v, rfl, rfl, h⟩; simpa using h
+  | alt x y ihx ihy =>
+    intro b w
+    simp only [mkCat, L_mkAlt, ihx, ihy]
+    simp only [L]
+    constructor
+    · rintro (⟨u, v, rfl, h1, h2⟩ | ⟨u, v, rfl, h1, h2⟩)
+      · exact ⟨u, v, rfl, Or.inl h1, h2⟩
+      · exact ⟨u, v, rfl, Or.inr h1, h2⟩
+    · rintro ⟨u, v, rfl, h1 | h1, h2⟩
+      · exact Or.inl ⟨u, v, rfl, h1, h2⟩
+      · exact Or.inr ⟨u, v, rfl, h1, h2⟩
+  | cat x y ihx ihy =>
+    intro b w
+    simp only [mkCat]
+    rw [ihx, L_cat_assoc]
+    exact L_cat_congr_right x _ _ (ihy b) w
+  | single S => intro b w; simp only [mkCat]; exact L_mkCat_base _ b w
+  | and x y _ _ => intro b w; simp only [mkCat]; exact L_mkCat_base _ b w
+  | star x _ => intro b w; simp only [mkCat]; exact L_mkCat_base _ b w
+  | compl x _ => intro b w; simp only [mkCat]; exact L_mkCat_base _ b w
+
+/-- The unmarked version of a word unifies with the word into the word itself. -/
+theorem unify_unmark (v : List Letter) : Unify (v.map (fun a => (a.1, 0))) v v := by
+  induction v with
+  | nil => exact .nil
+  | cons a v ih =>
+    obtain ⟨b, m⟩ := a
+    have := @Unify.cons b 0 m _ _ _ (Or.inr (Or.inl rfl)) ih
+    simpa using this
+
+theorem unify_unmark' (v : List Letter) : Unify v (v.map (fun a => (a.1, 0))) v := by
+  induction v with
+  | nil => exact .nil
+  | cons a v ih =>
+    obtain ⟨b, m⟩ := a
+    have := @Unify.cons b m 0 _ _ _ (Or.inr (Or.inr rfl)) ih
+    simpa using this
+
+theorem unify_unmarked_left {u v w : List Letter} (h : Unify u v w) (hu : ∀ x ∈ u, x.2 = 0) :
+    w = v := by
+  induction h with
+  | nil => rfl
+  | @cons b m1 m2 u v w _ _ ih =>
+    have h0 : m1 = 0 := hu (b, m1) (by simp)
+    subst h0
+    rw [ih (fun x hx => hu x (List.mem_cons_of_mem _ hx))]
+    simp
+
+theorem unify_unmarked_right {u v w : List Letter} (h : Unify u v w) (hv : ∀ x ∈ v, x.2 = 0) :
+    w = u := by
+  induction h with
+  | nil => rfl
+  | @cons b m1 m2 u v w _ _ ih =>
+    have h0 : m2 = 0 := hv (b, m2) (by simp)
+    subst h0
+    rw [ih (fun x hx => hv x (List.mem_cons_of_mem _ hx))]
+    simp
+
+theorem L_univ (w : List Letter) : L univ w ↔ ∀ x ∈ w, x.2 = 0 := by
+  simp [univ, L]
+
+theorem L_and_univ_left (b : Rx) (w : List Letter) : L (.and univ b) w ↔ L b w := by
+  simp only [L]
+  constructor
+  · rintro ⟨u, v, hu, hv, h⟩
+    have : (∀ x ∈ u, x.2 = 0) := (L_univ u).mp hu
+    rw [unify_unmarked_left h this]; exact hv
+  · intro h
+    exact ⟨w.map (fun a => (a.1, 0)), w, (L_univ _).mpr (by intro x hx; obtain ⟨y, _, rfl⟩ := List.mem_map.mp hx; rfl), h, unify_unmark w⟩
+
+theorem L_and_univ_right (a : Rx) (w : List Letter) : L (.and a univ) w ↔ L a w := by
+  simp only [L]
+  constructor
+  · rintro ⟨u, v, hu, hv, h⟩
+    have : (∀ x ∈ v, x.2 = 0) := (L_univ v).mp hv
+    rw [unify_unmarked_right h this]; exact hu
+  · intro h
+    exact ⟨w, w.map (fun a => (a.1, 0)), h, (L_univ _).mpr (by intro x hx; obtain ⟨y, _, rfl⟩ := List.mem_map.mp hx; rfl), unify_unmark' w⟩
+
+private theorem L_mkAndR_base (a b : Rx) (w : List Letter) :
+    L (if a = univ then b else if b = univ then a else .and a b) w ↔ L (.and a b) w := by
+  split
+  · next h => subst h; exact (L_and_univ_left b w).symm
+  · split
+    · next h => subst h; exact (L_and_univ_right a w).symm
+    · rfl
+
+theorem L_mkAndR (a b : Rx) : ∀ w : List Letter, L (mkAndR a b) w ↔ L (.and a b) w := by
+  induction b with
+  | empty => intro w; simp [mkAndR, L]
+  | alt x y ihx ihy =>
+    intro w
+    simp only [mkAndR, L_mkAlt, ihx, ihy]
+    simp only [L]
+    constructor
+    · rintro (⟨u, v, h1, h2, h3⟩ | ⟨u, v, h1, h2, h3⟩)
+      · exact ⟨u, v, h1, Or.inl h2, h3⟩
+      · exact ⟨u, v, h1, Or.inr h2, h3⟩
+    · rintro ⟨u, v, h1, h2 | h2, h3⟩
+      · exact Or.inl ⟨u, v, h1, h2, h3⟩
+      · exact Or.inr ⟨u, v, h1, h2, h3⟩
+  | eps => intro w; simp only [mkAndR]; exact L_mkAndR_base a _ w
+  | single S => intro w; simp only [mkAndR]; exact L_mkAndR_base a _ w
+  | cat x y _ _ => intro w; simp only [mkAndR]; exact L_mkAndR_base a _ w
+  | and x y _ _ => intro w; simp only [mkAndR]; exact L_mkAndR_base a _ w
+  | star x _ => intro w; simp only [mkAndR]; exact L_mkAndR_base a _ w
+  | compl x _ => intro w; simp only [mkAndR]; exact L_mkAndR_base a _ w
+
+theorem L_mkAnd (a : Rx) : ∀ (b : Rx) (w : List Letter), L (mkAnd a b) w ↔ L (.and a b) w := by
+  induction a with
+  | empty => intro b w; simp [mkAnd, L]
+  | alt x y ihx ihy =>
+    intro b w
+    simp only [mkAnd, L_mkAlt, ihx, ihy]
+    simp only [L]
+    constructor
+    · rintro (⟨u, v, h1, h2, h3⟩ | ⟨u, v, h1, h2, h3⟩)
+      · exact ⟨u, v, Or.inl h1, h2, h3⟩
+      · exact ⟨u, v, Or.inr h1, h2, h3⟩
+    · rintro ⟨u, v, h1 | h1, h2, h3⟩
+      · exact Or.inl ⟨u, v, h1, h2, h3⟩
+      · exact Or.inr ⟨u, v, h1, h2, h3⟩
+  | eps => intro b w; simp only [mkAnd]; exact L_mkAndR _ b w
+  | single S => intro b w; simp only [mkAnd]; exact L_mkAndR _ b w
+  | cat x y _ _ => intro b w; simp only [mkAnd]; exact L_mkAndR _ b w
+  | and x y _ _ => intro b w; simp only [mkAnd]; exact L_mkAndR _ b w
+  | star x _ => intro b w; simp only [mkAnd]; exact L_mkAndR _ b w
+  | compl x _ => intro b w; simp only [mkAnd]; exact L_mkAndR _ b w
 
 /-- Unfolding of the star on a non-empty word. -/
 theorem L_star_cons (a : Rx) (x : Letter) (w : List Letter) :
